@@ -36,6 +36,7 @@ def stub_tzd():
         return
     _done.add("tzd")
     from pyoda_time.utility import _csharp_compatibility as cc
+    arith._REAL["tzd"] = cc._towards_zero_division
     register_patch(cc._towards_zero_division, arith.tzd)
     STUBS_IN_FORCE.append("model:_towards_zero_division = exact truncating division (obligation |x| < 10**26 solver-checked per call; "
                           "conformance-checked against the real Decimal implementation each run)")
